@@ -54,8 +54,13 @@ class Sb:
     def send(self, c, b, chunks=()):
         return self.add("send", conn=c, b=list(b), chunks=list(chunks))
 
+    # extra capabilities the remote announces in every OPEN of this script (in addition to 4-octet AS)
+    extra_caps = ()
+
     def open(self, c, pn="p1", rid="10.0.0.2", hold=90, **kw):
         p = self.P(pn)
+        if self.extra_caps and "caps" not in kw and "params" not in kw:
+            kw["caps"] = [cap4(p["remoteAS"])] + [cap(code, val) for code, val in self.extra_caps]
         return self.send(c, open_msg(p["remoteAS"], hold, ip4(rid), **kw))
 
     def ka(self, c):
@@ -623,6 +628,8 @@ def headers(rnd, lengths=None, types=None):
         pre = rnd.choice([0, 1, 2]) if st == "established" else 0
         seg = rnd.choice(["one", "hb", "bytes"])
         b = Sb("hdr-%s-%s-%s-%d-%s" % (name, st, d, pre, seg), [peer()])
+        # what the remote announced must not change how its headers are judged
+        b.extra_caps = rnd.choice([(), ((6, []),), ((6, []), (1, [0, 1, 0, 1])), ((2, []), (70, [])), ((64, [0, 120]), (6, []))])
         b.start()
         c = b.to_state(st, direction=d)
         stream = [x for i in range(pre) for x in update([i, i])] + raw + keepalive()
@@ -1818,4 +1825,33 @@ def pm_gates():
             b.steps.append(multi(*subs))
             b.adv(1).adv(61)
             out.append(b.tag("damp" if code != 6 else "nodamp", "pmgate", "stop").build())
+    return out
+
+
+def notif_out(rnd):
+    """C08: NOTIFICATIONs the plugin asks corebgp to send (OPEN veto, handler reply) reach the wire exactly."""
+    out = []
+    pairs = [(6, 2), (6, 4), (6, 0), (3, 1), (2, 7), (255, 255)]
+    lens = [0, 1, 2, 3, 127, 128, 255, 256, 257, 300, 1000, 4075]
+    for code, sub in pairs:
+        for n in lens:
+            data = [(7 * i + n) % 256 for i in range(n)]
+            if n and rnd.random() < 0.5:
+                data[0] = rnd.choice([0, 1, n - 1, n, 255]) % 256     # looks like a length octet
+            for via in ("veto", "handler"):
+                if via == "veto":
+                    p = peer(openReply={"code": code, "sub": sub, "data": data})
+                else:
+                    p = peer(handlerReplies={"1": {"code": code, "sub": sub, "data": data}})
+                b = Sb("nout-%s-%d-%d-%d" % (via, code, sub, n), [p])
+                b.start()
+                d = rnd.choice(DIRS)
+                if via == "veto":
+                    c = b.to_state("openSent", direction=d)
+                    b.open(c)
+                else:
+                    c = b.establish(direction=d)
+                    b.upd(c)
+                b.adv(1)
+                out.append(b.tag("hdr", "nout").build())
     return out
